@@ -31,6 +31,7 @@ fn main() {
         "putq" => drivers::putq::run(&args),
         "query" => drivers::query::run(&args),
         "auth" => drivers::auth::run(&args),
+        "lookup" => drivers::lookup::run(&args),
         "idmath-one" => drivers::idmath::run_one(&args),
         other => {
             eprintln!("unknown driver {other}");
